@@ -73,8 +73,10 @@ pub fn query_get_twap_price(
         return Err(StdError::generic_err("Interval can't be zero"));
     }
 
-    // an interval longer than the chain's clock reaches back beyond every round: the window starts at zero
-    let base_timestamp = env.block.time.seconds().saturating_sub(interval);
+    // an interval longer than the chain's clock reaches back beyond every round: the window is
+    // [0, now], and the average is taken over that window
+    let interval = interval.min(env.block.time.seconds());
+    let base_timestamp = env.block.time.seconds() - interval;
     let prices_response = read_price_data(deps.storage, key);
 
     // get the current data
